@@ -17,13 +17,13 @@ def rgs(n):
 
 def run(tier, seed):
     thorough = tier == 'thorough'
-    cases = [Case('errors', 'crypto', 'zzC02_errors', []), Case('cancel', 'crypto', 'zzC02_cancel', [])]
     opts = {'map_order_all': True, 'coord_axioms': True}
+    cases = [Case('errors', 'crypto', 'zzC02_errors', [], opts=opts), Case('cancel', 'crypto', 'zzC02_cancel', [], opts=opts)]
     for n in ((1, 2, 3, 4) if thorough else (1, 2, 3)):
         pats = rgs(n)
         for kp in pats:
             for mp in pats:
-                if n >= 3 and not thorough and not (kp in (pats[0], pats[-1], pats[1]) and mp in (pats[0], pats[-1], pats[2])):
+                if n >= 3 and not thorough and not (kp in (pats[0], pats[-1]) and mp in (pats[0], pats[-1], pats[2])):
                     continue
                 if n == 4 and not (kp in pats[::3] and mp in pats[::4]):
                     continue
